@@ -294,7 +294,7 @@ fn main() {
         require.push((format!("mutants.{c}"), 20));
     }
     run.finish(Finish {
-        rule: "seed proofs as in C03 (12 field x hasher combinations, 3 extension degrees, single/multi segment, Lagrange kernel, with/without trace metadata); inputs: every single-bit flip and 8 byte values at every offset (quick: all for the first 160 bytes, one per offset beyond), every scalar/length field x {0,1,2,..,max-1,max,+-1,random}, blobs grown/shrunk/emptied with lengths fixed up, FRI layer and query record surgery, Merkle node-vector edits, truncation at every offset, trailing garbage, valid prefix + random bytes, structurally valid proofs with inconsistent components built through the public fields (unique-query counts 0/1/2/254/255, nonces, gkr_proof variants, missing/extra/swapped query sets, empty OOD frame/commitments, dummy FRI proof, foreign context). Each input: Proof::from_bytes; if it parses, verify against the right public inputs under MinConjecturedSecurity(0), MinProvenSecurity(0), OptionSet([options]), MinConjecturedSecurity(128) and against perturbed public inputs. Monitors: panic hook, overflow checks, counting allocator (single request <= max(16 MiB, 64*len), peak <= 256*len + 64 MiB), child-process isolation. distinct = distinct (seed, mutant)".into(),
+        rule: "seed proofs as in C03 (12 field x hasher combinations, 3 extension degrees, single/multi segment, Lagrange kernel, with/without trace metadata); inputs: every single-bit flip and 8 byte values at every offset (quick: all for the first 160 bytes, one per offset beyond), every scalar/length field x {0,1,2,..,max-1,max,+-1,random}, blobs grown/shrunk/emptied with lengths fixed up (by bytes, zero bytes, digests, field elements, whole table rows), rows added to / removed from every opened table at once with and without num_unique_queries adjusted, out-of-domain frames re-encoded with other frame sizes, Lagrange frame injected/resized, FRI layer and query record surgery (also together with the layer's commitment), sampled pairs of such edits, single-query seeds with the FRI remainder shortened/extended + its commitment recomputed + the nonce scanned, Merkle node-vector edits, truncation at every offset, trailing garbage, valid prefix + random bytes, structurally valid proofs with inconsistent components built through the public fields (unique-query counts 0/1/2/254/255, nonces, gkr_proof variants, missing/extra/swapped query sets, empty OOD frame/commitments, dummy FRI proof, foreign context). Each input: Proof::from_bytes; if it parses, verify against the right public inputs under MinConjecturedSecurity(0), MinProvenSecurity(0), OptionSet([options]), MinConjecturedSecurity(128) and against perturbed public inputs. Monitors: panic hook, overflow checks, counting allocator (single request <= max(16 MiB, 64*len), peak <= 256*len + 64 MiB), child-process isolation. distinct = distinct (seed, mutant)".into(),
         assumptions: vec![
             "each worker is a child process that announces a case before running it; a death is attributed to the announced case and the worker is restarted after it".into(),
             "panic signatures: repo-relative file (or first repo frame + function for panics inside core/alloc) + message with digits normalised".into(),
